@@ -201,6 +201,65 @@ ROUTE = {
                    "(crate::g5, rt_stub_g5), (crate::g13, rt_stub_g13), (crate::g21, rt_stub_g21)"),
 }
 
+# Position-paired leaf abstraction for ARX ciphers (DESIGN 10.2 item 19): the two-computation harnesses (b2b1, frame2) run the
+# SAME block function twice on equal data; two separately encoded 72/80-round add-rotate-xor networks are a miter the SAT back end
+# does not finish (600 s), and a back-end uninterpreted function would need 288..1280 applications (quadratic consistency
+# constraints).  The stub below answers every leaf call with a fresh arbitrary pair, logs (which, r, x) -> y, and constrains
+# call k only against the calls exactly one block computation earlier (k - 144 / 288 / 640: Threefish-256 / 512 / 1024 make
+# that many MIX calls per block): equal arguments => the logged result.  Every constraint imposed is a consistency constraint
+# of a real function, so the real MIX / MIX^-1 are among the admitted behaviours (sound); counterexamples are replayed natively.
+# crate -> (declarations, stub pairs, cbmc_args)
+PAIRED = {
+    "threefish": (r"""
+// position-paired abstraction of MIX / MIX^-1 (see gen_xcut.py PAIRED)
+pub mod rt_pl {
+    pub const CAP: usize = 1280;
+    pub static mut N: usize = 0;
+    pub static mut W: [u8; CAP] = [0; CAP];
+    pub static mut R: [u8; CAP] = [0; CAP];
+    pub static mut X0: [u64; CAP] = [0; CAP];
+    pub static mut X1: [u64; CAP] = [0; CAP];
+    pub static mut Y0: [u64; CAP] = [0; CAP];
+    pub static mut Y1: [u64; CAP] = [0; CAP];
+}
+#[cfg(kani)]
+fn rt_paired(which: u8, r: u8, x: (u64, u64)) -> (u64, u64) {
+    unsafe {
+        let k = rt_pl::N;
+        let mut y: (u64, u64) = (kani::any(), kani::any());
+        if k >= rt_pl::CAP {
+            return y; // beyond the log: unconstrained (sound)
+        }
+        rt_pl::N = k + 1;
+        if k >= 640 && rt_pl::W[k - 640] == which && rt_pl::R[k - 640] == r && rt_pl::X0[k - 640] == x.0 && rt_pl::X1[k - 640] == x.1 {
+            y = (rt_pl::Y0[k - 640], rt_pl::Y1[k - 640]);
+        }
+        if k >= 288 && rt_pl::W[k - 288] == which && rt_pl::R[k - 288] == r && rt_pl::X0[k - 288] == x.0 && rt_pl::X1[k - 288] == x.1 {
+            y = (rt_pl::Y0[k - 288], rt_pl::Y1[k - 288]);
+        }
+        if k >= 144 && rt_pl::W[k - 144] == which && rt_pl::R[k - 144] == r && rt_pl::X0[k - 144] == x.0 && rt_pl::X1[k - 144] == x.1 {
+            y = (rt_pl::Y0[k - 144], rt_pl::Y1[k - 144]);
+        }
+        rt_pl::W[k] = which;
+        rt_pl::R[k] = r;
+        rt_pl::X0[k] = x.0;
+        rt_pl::X1[k] = x.1;
+        rt_pl::Y0[k] = y.0;
+        rt_pl::Y1[k] = y.1;
+        y
+    }
+}
+#[cfg(not(kani))]
+fn rt_paired(which: u8, r: u8, x: (u64, u64)) -> (u64, u64) {
+    if which == 0 { crate::mix(r, x) } else { crate::inv_mix(r, x) }
+}
+pub fn rt_stub_mix(r: u8, x: (u64, u64)) -> (u64, u64) { rt_paired(0, r, x) }
+pub fn rt_stub_inv_mix(r: u8, y: (u64, u64)) -> (u64, u64) { rt_paired(1, r, y) }
+""",
+                  "(crate::mix, rt_stub_mix), (crate::inv_mix, rt_stub_inv_mix)",
+                  "--max-field-sensitivity-array-size;1300"),
+}
+
 # Hand-written per-crate additions appended to the generated xcut.rs: C11 constructor-pair relations at the public API
 # (no private helper is named, so a refactoring of the padding code cannot break the harness, only the property).
 EXTRA = {
@@ -382,6 +441,12 @@ def emit(crate, rows):
     route_decl, route_pairs = ROUTE.get(crate, ("", ""))
     if route_decl:
         o.append("\n// routing stubs (see gen_xcut.py ROUTE): non-linear leaf uninterpreted in the blocks / frame / mixed harnesses\n" + route_decl)
+    pdecl, ppairs, pargs = PAIRED.get(crate, ("", "", ""))
+    if pdecl:
+        o.append(pdecl)
+    pstubs = (", stubs: [%s]" % ppairs) if ppairs else ""
+    pmeta = ("stub=1 cbmc_args=%s " % pargs) if ppairs else ""
+    pnote = " (MIX / MIX^-1 abstracted: each call constrained only against the call one block computation earlier, equal arguments => equal result; the leaf itself is decided by the conformance family's MIX lemmas)" if ppairs else ""
     rstubs = (", stubs: [%s]" % route_pairs) if route_pairs else ""
     rmeta = "stub=1 " if route_pairs else ""
     rnote = " (non-linear leaf uninterpreted; totality with nothing abstracted is decided by the *_total_* harness)" if route_pairs else "; nothing abstracted"
@@ -448,8 +513,8 @@ def emit(crate, rows):
                 o.pop()
         for d in t["dirs"]:
             if t["frame"]:
-                o.append('//@ harness name=%s_frame2_%s prop=C15,C20 tier=%s bits=%d %s%sdesc="%s: %s_block twice with the same block on one arbitrary-valid-state instance returns (no panic / overflow / bounds failure), gives the same result both times and leaves every byte of the instance unchanged%s"\n' % (n, d, tier, 8 * bs + 64, rmeta, "quick=C20 " if d == t["dirs"][0] else "", ty, "encrypt" if d == "enc" else "decrypt", rnote))
-                o.append("g_frame2!(%s_frame2_%s, %s, %d, %s, %s%s);\n" % (n, d, ty, bs, t["valid"], d, rstubs))
+                o.append('//@ harness name=%s_frame2_%s prop=C15,C20 tier=%s bits=%d %s%sdesc="%s: %s_block twice with the same block on one arbitrary-valid-state instance returns (no panic / overflow / bounds failure), gives the same result both times and leaves every byte of the instance unchanged%s"\n' % (n, d, tier, 8 * bs + 64, rmeta or pmeta, "quick=C20 " if d == t["dirs"][0] else "", ty, "encrypt" if d == "enc" else "decrypt", pnote or rnote))
+                o.append("g_frame2!(%s_frame2_%s, %s, %d, %s, %s%s);\n" % (n, d, ty, bs, t["valid"], d, rstubs or pstubs))
                 o.append('//@ harness name=%s_frame_%s prop=C15,C20 tier=%s bits=%d %sdesc="%s: %s_block on an arbitrary valid state returns for every block (no panic / overflow / bounds failure); the history op(x); op(y); op(x) on one instance gives equal first and third results and leaves every byte of the instance unchanged%s"\n' % (n, d, "thorough", 16 * bs + 64, rmeta, ty, "encrypt" if d == "enc" else "decrypt", rnote))
                 if route_pairs:
                     o.append("g_frame1!(%s_frame_%s, %s, %d, %s, %s%s);\n" % (n, d, ty, bs, t["valid"], d, rstubs))
@@ -461,8 +526,8 @@ def emit(crate, rows):
                     o.append('//@ harness name=%s_total_%s prop=C20 tier=%s bits=%d desc="%s: one %s_block call on an arbitrary valid state and block returns and leaves the instance unchanged; NOTHING abstracted (every overflow / bounds / shift / unwrap / debug assertion on the path is an obligation)"\n' % (n, d, tier, 8 * bs + 64, ty, "encrypt" if d == "enc" else "decrypt"))
                     o.append("g_total!(%s_total_%s, %s, %d, %s, %s);\n" % (n, d, ty, bs, t["valid"], d))
             if t["blocks"]:
-                o.append('//@ harness name=%s_b2b_%s prop=C04,C20 tier=%s bits=%d %sdesc="%s (%s): the single-block b2b call into an output buffer pre-filled with arbitrary bytes equals the in-place call on the same block; the separate input is unchanged; arbitrary valid state (two block computations: the quick form; for parallel width 1 the multi-block entry points are the cipher crate\'s loop over this call)%s"\n' % (n, d, tier, 16 * bs + 64, rmeta, ty, d, " (non-linear leaf uninterpreted)" if route_pairs else ""))
-                o.append("g_b2b1!(%s_b2b_%s, %s, %d, %s, %s%s);\n" % (n, d, ty, bs, t["valid"], d, rstubs))
+                o.append('//@ harness name=%s_b2b_%s prop=C04,C20 tier=%s bits=%d %sdesc="%s (%s): the single-block b2b call into an output buffer pre-filled with arbitrary bytes equals the in-place call on the same block; the separate input is unchanged; arbitrary valid state (two block computations: the quick form; for parallel width 1 the multi-block entry points are the cipher crate\'s loop over this call)%s"\n' % (n, d, tier, 16 * bs + 64, rmeta or pmeta, ty, d, " (non-linear leaf uninterpreted)" if route_pairs else pnote))
+                o.append("g_b2b1!(%s_b2b_%s, %s, %d, %s, %s%s);\n" % (n, d, ty, bs, t["valid"], d, rstubs or pstubs))
                 o.append('//@ harness name=%s_blocks_%s prop=C04,C20 tier=%s bits=%d %sdesc="%s (%s): multi-block in place, multi-block b2b and single b2b calls for every n in 0..=%d equal per-block in-place calls; separate input unchanged; output blocks >= n untouched; arbitrary valid state%s"\n' % (n, d, "thorough", 8 * bs * t["nb"] + 72, rmeta, ty, d, t["nb"], " (non-linear leaf uninterpreted)" if route_pairs else ""))
                 if route_pairs:
                     o.pop()
